@@ -34,6 +34,8 @@ def c18 (op : String) (j : Json) : Except String Json := do
     pure (jUnit (mkTwoQubitGate (← (← field j "basis_qubits").getNat?)))
   | "c18.basis" =>
     pure (jUnit (mkBasis (← getNatList (← field j "arities")) (← (← field j "ncoeffs").getNat?)))
+  | "c18.no_classical" =>
+    pure (jUnit (checkNoClassical (← (← field j "nregs").getNat?) (← (← field j "nbits").getNat?)))
   | "c18.unset_basis_id" =>
     -- decompose_qpd_instructions(circuit, [[0]], map_ids=None) on a placeholder whose basis_id may be unset
     let id ← getOpt (fieldD j "id" Json.null) Json.getNat?
